@@ -13,6 +13,7 @@ import sys
 import threading
 
 import fiddle as fdl
+from fiddle.experimental import auto_config
 from fiddle._src.config import Buildable
 
 from vf import canon as C
@@ -339,12 +340,39 @@ def run_seq(spec, acc):
     acc.case(('seq', sketch, tuple(shapes)), True)
 
 
-def nested_builder(mode, log, attempts, tag):
-  """Returns a callable that calls fdl.build (`attempts` times) from inside a build."""
+@auto_config.auto_unconfig
+def _unconfig_ok(v):
+  return fdl.Config(kinds.two, x=v)
+
+
+def _boom(x=None):
+  raise KeyError('inner build of an auto_unconfig function fails')
+
+
+@auto_config.auto_unconfig
+def _unconfig_failing(v):
+  return fdl.Config(_boom, x=v)
+
+
+def nested_builder(mode, log, attempts, tag, unconfig=None):
+  """Returns a callable that calls fdl.build (`attempts` times) from inside a build.
+
+  unconfig: None | 'ok' | 'failing' - first call an auto_unconfig function (the documented way to
+  build from inside a build); whether its own build succeeds or fails, plain nested fdl.build
+  calls afterwards must still be rejected."""
   inner = fdl.Config(kinds.two, x=1)
 
   def fn(uid=None, a=None):
     first_error = None
+    if unconfig == 'ok':
+      _unconfig_ok(1)
+      log.append((tag, -1, 'inner-build-raised'))      # placeholder: counts as an attempt made
+    elif unconfig == 'failing':
+      try:
+        _unconfig_failing(1)
+      except KeyError:
+        pass
+      log.append((tag, -1, 'inner-build-raised'))
     for k in range(attempts):
       try:
         r = fdl.build(inner)
@@ -369,7 +397,11 @@ def run_nested(spec, acc):
     n_callables = rng.choice([1, 2, 2])
     targets = []
     for t in range(n_callables):
-      fn = nested_builder(mode if t == n_callables - 1 else 'swallow', log, rng.randint(1, 3), f'c{t}')
+      unconfig = rng.choice([None, None, 'ok', 'failing'])
+      if unconfig:
+        acc.obs('nested_after_auto_unconfig:' + unconfig)
+      fn = nested_builder(mode if t == n_callables - 1 else 'swallow', log, rng.randint(1, 3), f'c{t}',
+                          unconfig)
       targets.append(gen.B('Config', fn, kw={'uid': gen.Leaf(10 + t), 'a': gen.Leaf(rng.choice([1, 'x']))}))
     root = gen.B('Config', kinds.node, kw={'uid': gen.Leaf(2), 'a': gen.Seq('list', targets),
                                           'b': gen.B('Config', kinds.two, kw={'x': gen.Leaf(0)})})
